@@ -102,17 +102,19 @@ pub mod env {
     /// `wasmi::Caller<'a, T>`: the store seen from inside a host function
     pub struct Caller<'a, T> { pub store: &'a mut StoreInner, pub host: &'a T }
     impl<'a, T> Caller<'a, T> {
-        /// the module instance's export called "memory" (EXPORT_MEMORY)
-        pub uninterp spec fn memory(&self) -> Memory;
+        /// the module instance's export called "memory" (EXPORT_MEMORY); a property of the instance, not of the store contents
+        pub open spec fn memory(&self) -> Memory { instance_memory(*self.host) }
         /// ASSUMED (module validation, InvalidMemory::MemoryNotExported): the instance exports its linear
         /// memory under EXPORT_MEMORY -- the only name this is called with; so grab_memory! never panics.
         #[verifier::external_body]
         pub fn get_export(&self, name: &str) -> (r: Option<Extern>)
             ensures r == Some(Extern::Memory(self.memory()))
         { unimplemented!() }
-        /// the runtime installed behind `data().runtime_ptr`
-        pub uninterp spec fn runtime(&self) -> AnyRuntime;
+        /// the runtime installed behind `data().runtime_ptr` (lives outside the store)
+        pub open spec fn runtime(&self) -> AnyRuntime { installed_runtime(*self.host) }
     }
+    pub uninterp spec fn instance_memory<T>(host: T) -> Memory;
+    pub uninterp spec fn installed_runtime<T>(host: T) -> AnyRuntime;
     impl<'a, T> AsContext for Caller<'a, T> {
         open spec fn inner(&self) -> StoreInner { *self.store }
         fn as_context(&self) -> (r: StoreContext<'_>) { StoreContext { store: &*self.store } }
@@ -136,14 +138,14 @@ pub mod env {
     /// in `unit`, assumed for the opaque `Box<dyn WasmRuntime>` that host functions see):
     ///  * ids are handed out fresh and monotonically, at most `max_buffers` buffers are open,
     ///  * consuming returns exactly the stored bytes and removes the entry (a second consume fails).
-    pub trait WasmRuntime {
+    pub trait WasmRuntime: Sized {
         spec fn buffers(&self) -> Map<BufferId, Vec<u8>>;
         spec fn next_id(&self) -> BufferId;
         spec fn max_buffers(&self) -> nat;
 
         fn allocate_buffer(&mut self, buffer: Vec<u8>) -> (ret: Result<Buffer, InvokeError<WasmRuntimeError>>)
             requires
-                table_wf(old(self)),
+                table_wf(old(self).buffers(), old(self).next_id(), old(self).max_buffers()),
                 buffer@.len() <= 0xffffffff,          // the assert! in the real code (host buffers are < 4 GiB)
                 old(self).next_id() < u32::MAX,       // 2^32 allocations in one invocation (no overflow of the id counter)
             ensures
@@ -161,7 +163,7 @@ pub mod env {
                     &&& final(self).next_id() == old(self).next_id()
                 },
                 final(self).max_buffers() == old(self).max_buffers(),
-                table_wf(final(self));
+                table_wf(final(self).buffers(), final(self).next_id(), final(self).max_buffers());
 
         fn buffer_consume(&mut self, buffer_id: BufferId) -> (ret: Result<Vec<u8>, InvokeError<WasmRuntimeError>>)
             ensures
@@ -170,12 +172,15 @@ pub mod env {
                 final(self).buffers() == old(self).buffers().remove(buffer_id),
                 final(self).next_id() == old(self).next_id(),
                 final(self).max_buffers() == old(self).max_buffers(),
-                table_wf(old(self)) ==> table_wf(final(self));
+                table_wf(old(self).buffers(), old(self).next_id(), old(self).max_buffers()) ==> table_wf(final(self).buffers(), final(self).next_id(), final(self).max_buffers());
     }
     /// table invariant: every open id was handed out earlier; the table respects its bound
-    pub open spec fn table_wf<R: WasmRuntime>(r: &R) -> bool {
-        &&& forall|id: BufferId| r.buffers().contains_key(id) ==> id < r.next_id()
-        &&& r.buffers().dom().len() <= r.max_buffers()
+    /// (takes the three observables rather than `&impl WasmRuntime`: a trait contract may not mention a
+    /// function that is generic over the trait)
+    pub open spec fn table_wf(buffers: Map<BufferId, Vec<u8>>, next_id: BufferId, max_buffers: nat) -> bool {
+        &&& forall|id: BufferId| buffers.contains_key(id) ==> id < next_id
+        &&& forall|id: BufferId| buffers.contains_key(id) ==> (#[trigger] buffers[id])@.len() <= 0xffffffff
+        &&& buffers.dom().len() <= max_buffers
     }
 
     /// `Box<dyn WasmRuntime>`: some implementation of the trait; the non-buffer methods used by the host
@@ -304,6 +309,47 @@ pub mod unit {
         @*/
     }
 
+    // ASSUMED: the derived PartialOrd on the fieldless enum orders the variants by declaration order.
+    pub open spec fn version_rank(v: ScryptoVmVersion) -> int {
+        match v { ScryptoVmVersion::V1_0 => 0, ScryptoVmVersion::V1_1 => 1, ScryptoVmVersion::V1_2 => 2 }
+    }
+    impl PartialEq for ScryptoVmVersion {
+        #[verifier::external_body]
+        fn eq(&self, o: &ScryptoVmVersion) -> (r: bool) ensures r == (*self == *o) { unimplemented!() }
+    }
+    impl vstd::std_specs::cmp::PartialEqSpecImpl for ScryptoVmVersion {
+        open spec fn obeys_eq_spec() -> bool { true }
+        open spec fn eq_spec(&self, o: &ScryptoVmVersion) -> bool { *self == *o }
+    }
+    impl PartialOrd for ScryptoVmVersion {
+        #[verifier::external_body]
+        fn partial_cmp(&self, o: &ScryptoVmVersion) -> (r: Option<core::cmp::Ordering>)
+            ensures r == Some(if version_rank(*self) < version_rank(*o) { core::cmp::Ordering::Less } else if version_rank(*self) == version_rank(*o) { core::cmp::Ordering::Equal } else { core::cmp::Ordering::Greater })
+        { unimplemented!() }
+    }
+    impl vstd::std_specs::cmp::PartialOrdSpecImpl for ScryptoVmVersion {
+        open spec fn obeys_partial_cmp_spec() -> bool { true }
+        open spec fn partial_cmp_spec(&self, o: &ScryptoVmVersion) -> Option<core::cmp::Ordering> {
+            Some(if version_rank(*self) < version_rank(*o) { core::cmp::Ordering::Less } else if version_rank(*self) == version_rank(*o) { core::cmp::Ordering::Equal } else { core::cmp::Ordering::Greater })
+        }
+    }
+    impl ScryptoVmVersion {
+        /*@fn radix-engine/src/vm/versions.rs :: impl ScryptoVmVersion :: fn cuttlefish
+        @sig
+            ensures ret == ScryptoVmVersion::V1_2
+        @*/
+    }
+    impl<'y, Y: SystemApi<RuntimeError>> ScryptoRuntime<'y, Y> {
+        /*@fn radix-engine/src/vm/wasm_runtime/scrypto_runtime.rs :: impl<'y, Y: SystemApi<RuntimeError>> ScryptoRuntime<'y, Y> :: fn new
+        @sig
+            ensures
+                // a fresh runtime has an empty buffer table: the table invariant holds initially
+                ret.buffers() == Map::<BufferId, Vec<u8>>::empty(), ret.next_id() == 0,
+                ret.max_buffers() == max_host_buffer_count(scrypto_vm_version),
+                table_wf(ret.buffers(), ret.next_id(), ret.max_buffers()),
+        @*/
+    }
+
     // ---- the buffer table of the real runtime meets the trait contract (bodies verbatim) -----------
     impl<'y, Y: SystemApi<RuntimeError>> WasmRuntime for ScryptoRuntime<'y, Y> {
         open spec fn buffers(&self) -> Map<BufferId, Vec<u8>> { self.buffers@ }
@@ -325,7 +371,7 @@ pub mod unit {
     }
     /// ... and an allocated buffer is read back exactly, under a fresh id, once
     pub fn allocate_then_consume<R: WasmRuntime>(rt: &mut R, bytes: Vec<u8>) -> (r: Option<Vec<u8>>)
-        requires table_wf(old(rt)), bytes@.len() <= 0xffffffff, old(rt).next_id() < u32::MAX,
+        requires table_wf(old(rt).buffers(), old(rt).next_id(), old(rt).max_buffers()), bytes@.len() <= 0xffffffff, old(rt).next_id() < u32::MAX,
         ensures
             r is Some <==> old(rt).buffers().dom().len() < old(rt).max_buffers(),
             r matches Some(v) ==> v == bytes,
@@ -377,6 +423,9 @@ pub mod unit {
 
         /*@fn radix-engine/src/vm/wasm/wasmi.rs :: fn consume_buffer
         @sig
+            requires
+                // invariant of the runtime's buffer table (established empty by ScryptoRuntime::new, preserved by both operations)
+                table_wf(caller.runtime().buffers(), caller.runtime().next_id(), caller.runtime().max_buffers()),
             ensures
                 // unknown (or already consumed) buffer: refused, memory untouched
                 !caller.runtime().buffers().contains_key(buffer_id) ==>
